@@ -66,6 +66,34 @@ Theorem C19_scaled_refuted : parse_conv_mode = ConvTruncate ->
 Proof. exact scaled_refuted. Qed.
 Print Assumptions C19_scaled_refuted.
 
+(* chained inputs: the FIT output has exactly one sequence per file_id row of the CSV (and one if there is none), whenever the
+   conversion succeeds; fit_to_rows writes one "Data" row per message whose name cell is mesg_name(num), file_id's name
+   resolves to 0 under every option set and no other profile name does (C19_file_id_name, C19_other_names: table facts).
+   FULL STATEMENT (not proved, validated by the correspondence run on chains of 1..3 sequences):
+     forall o evs seqs, rows_to_fit (fit_to_rows o evs) = Some seqs -> length seqs = max 1 (number of file_id messages in evs). *)
+Theorem C19_chain_partial : forall parse64 parse32 rows seqs,
+  rows_to_fit parse64 parse32 rows = Some seqs -> List.length seqs = Nat.max 1 (count_file_id_rows rows).
+Proof. exact sequences_follow_file_id. Qed.
+Print Assumptions C19_chain_partial.
+
+Theorem C19_file_id_name : forall v, resolve_mesg_num (mesg_name v 0) = Some (Some 0).
+Proof. exact file_id_name_resolves. Qed.
+Print Assumptions C19_file_id_name.
+
+Theorem C19_other_names :
+  forallb (fun p => (fst p =? 0) || negb (match resolve_mesg_num (snd p) with Some (Some n) => n =? 0 | _ => false end)) mesg_names = true.
+Proof. exact other_names_do_not_resolve_to_file_id. Qed.
+Print Assumptions C19_other_names.
+
+(* NOT PROVED (rung 1/2 of the ladder; the statements the cell lemmas above are meant to be assembled into):
+   C19_raw     : forall fit, in_scope fit -> rows_to_fit (fit_to_rows raw_opts (events fit)) = Some (messages fit)
+                 where in_scope = profile messages and fields, values of the field's kind and range, clean strings, no active
+                 ambiguity (no expansion target present, unique developer names, distinct field numbers, >= 1 field per message);
+                 proved here only per cell for the 14 integer base types (C19_raw_cell); strings, floats (text assumption),
+                 sub-field reversal, developer fields and the row/file composition are covered by the correspondence run only.
+   C19_verbose : the same with o_verbose = true including unknown(N) messages / fields and base-type recovery from the units cell
+                 (FromString (String bt) = bt is a table fact of gen/CsvNames.v); correspondence only. *)
+
 (* non-vacuity *)
 Example C19_example_codec : parse_Z (print_Z (-16039)) = Some (-16039)%Z.
 Proof. vm_compute. reflexivity. Qed.
